@@ -12,7 +12,7 @@ from .. import sqltie
 from ..model import call_many
 from ..pool import guarded, run_cases
 
-THEOREMS = ["C05_one_pk", "C05_examples", "C05_variants_share_the_column_source", "C05_column_roundtrip", "C05_column_pk_marker", "C05_column_default", "C05_column_optional_none", "C05_column_refuted"]
+THEOREMS = ["C05_one_pk", "C05_examples", "C05_variants_share_the_column_source", "C05_column_roundtrip", "C05_column_pk_marker", "C05_column_fk_marker", "C05_column_default", "C05_column_optional_none", "C05_column_refuted"]
 VARIANTS = ("sqlalchemy", "sqlalchemy_table", "sqlalchemy_hybrid")
 STYLES = ("rest", "google", "numpydoc")
 COLNAMES = ["size", "label", "active", "ratio", "note", "count", "dataset_name", "user_id", "id", "id_code", "title", "weight", "_rev", "_hidden"]
@@ -140,6 +140,24 @@ def check_case(ir):
                     ma, mb = re.findall(r"'([^']*)'", ta), re.findall(r"'([^']*)'", tb)
                     if "Literal[" in ta and "Literal[" in tb and sorted(ma) == sorted(mb) and ma != mb:
                         items.append(("C05/roundtrip/param/literal-member-order", {"param": k, "in": ta, "out": tb, "config": tag, "locus": "%s|%s" % (tag, k)}))
+            # a description that a SQLAlchemy parser produced (it carries the parser's extension key) is a description too: written as
+            # the other variant and read back, it must come back as it was
+            for a, b in (("sqlalchemy", "sqlalchemy_table"), ("sqlalchemy_table", "sqlalchemy")):
+                if a not in outs:
+                    continue
+                tag = "%s->%s/%s/%s" % (a, b, style, "force" if force else "noforce")
+                loci.append(tag + "|-")
+                first = copy.deepcopy(outs[a])
+                first["name"] = first.get("name") or ir["name"]
+                try:
+                    _src2, second, _hp = emit_and_parse(b, first, style, force)
+                except Exception as e:  # noqa
+                    items.append(("C05/parsed-description/raises/%s" % type(e).__name__, {"error": str(e)[:120], "config": tag, "locus": tag + "|-"}))
+                    continue
+                n += 1
+                for cls, det in T.compare(strip_pk(first), strip_pk(second)):
+                    idc = "/id-column" if det.get("param") == "id" else ""
+                    items.append(("C05/parsed-description/%s%s" % (cls, idc), dict(det, config=tag, locus=tag + "|-")))
             # interchangeability: the three emissions of one interface parse to the same columns
             keys = [v for v in VARIANTS if v in outs]
             for a, b in zip(keys, keys[1:]):
